@@ -316,7 +316,7 @@ package vuego
 //@ func (e *ExprEvaluator) getProgram(expression) (prog, err)
 //@   unlocked
 //@   modifies contents(e.programs), held(&e.mu)
-//@   ensures C10+C13.cache.hit.eq.miss: err == nil ==> prog == compiled2(expression, optAllowUndef(), optDisable("count"))
+//@   ensures C09+C10+C13.cache.hit.eq.miss: err == nil ==> prog == compiled2(expression, optAllowUndef(), optDisable("count"))
 //@ func (e *ExprEvaluator) ClearCache()
 //@   unlocked
 //@   modifies e.programs, held(&e.mu)
@@ -665,6 +665,8 @@ package vuego
 //@   assert C05.frontmatter.own.scope: len(ctx.stack.stack) == old(len(ctx.stack.stack)) + 1 && (vars != nil ==> ctx.stack.stack[len(ctx.stack.stack) - 1] == vars) at "ctx.stack.Set(k, v)"
 //@   assert C06.instance.own: fresh(ctx.SlotScope) && ctx.SlotScope != nil && ctx.SlotScope == own && own.parent == old(ctx.SlotScope) at "call loadFragment"
 //@   assert C05.component.scope: len(ctx.stack.stack) == old(len(ctx.stack.stack)) + 1 at "v.evalTemplate(ctx, compDom, ctx.stack.EnvMap(), depth+1)"
+//@   assert C01.include.eval.once: !(len(compDom) > 0 && compDom[0].Type == html.ElementNode && compDom[0].Data == "template") || (len(processedDom) > 0 && processedDom[0] == compDom[0]) at "call evaluate"
+//@   assert C16.ids.by.file: $arg0 == name at "call assignOnceIDs"
 //@   ensures C05.noleak: BALANCED(ctx)
 //@   loop 0 invariant C05.balance.loop: len(ctx.stack.stack) == old(len(ctx.stack.stack)) + 1 && (forall bi int :: 0 <= bi && bi < old(len(ctx.stack.stack)) ==> ctx.stack.stack[bi] == old(ctx.stack.stack[bi])) && (vars != nil ==> ctx.stack.stack[len(ctx.stack.stack) - 1] == vars)
 //@   loop 1 invariant C05.balance.loop: len(ctx.stack.stack) == old(len(ctx.stack.stack)) + 1 && (forall bi int :: 0 <= bi && bi < old(len(ctx.stack.stack)) ==> ctx.stack.stack[bi] == old(ctx.stack.stack[bi])) && (vars != nil ==> ctx.stack.stack[len(ctx.stack.stack) - 1] == vars)
